@@ -347,7 +347,7 @@ End SelectorTotal.
 From LC Require Import Proofs.LearnProofs.
 
 Section Total.
-Context {D SY : Type} (dops : dict_ops D) (sops : syl_ops SY) (conv : conv_fn).
+Context {D SY : Type} (dops : dict_ops D) (sops : syl_ops SY) (conv : conv_fn D).
 Variable dict_ok : D -> Prop.
 Hypothesis ok_lookup : forall d f, dict_ok d -> do_lookup dops d f [] = [].
 Hypothesis ok_add : forall d k t f, dict_ok d -> length t <= length k -> (f <= 100)%N -> dict_ok (fst (do_add dops d k t f)).
@@ -362,7 +362,7 @@ Hypothesis ss0_fresh : ss_cursor ss0 = None.
    key events are the ones the C API builds: a printable ASCII character or U+FFFD, Space carries ' ' *)
 Hypothesis ok_text : forall d f k p, dict_ok d -> In p (do_lookup dops d f k) -> fst p <> [].
 Hypothesis ok_freq : forall d f k p, dict_ok d -> In p (do_lookup dops d f k) -> (snd p < 4000000000)%N.
-Hypothesis conv_tiles : forall c n, wf_comp c -> contiguous 0 (clen c) (conv c n) = true.
+Hypothesis conv_tiles : forall d k c n, dict_ok d -> wf_comp c -> contiguous 0 (clen c) (conv d k c n) = true.
 Definition event_ok (ev : keyevent) : Prop :=
   (kcode ev = kc_Space -> full_width_symbol_input (kunicode ev) <> None) /\
   (is_printable ev = true -> full_width_symbol_input (kunicode ev) <> None).
@@ -442,9 +442,9 @@ Qed.
 
 Lemma fine_commit (s : shared') : SInv s -> fine (commit dops conv s).
 Proof.
-  intros Hs. pose proof Hs as [[Wc _] _ _ _]. unfold commit. apply fine_bind; [|intros; exact I].
+  intros Hs. pose proof Hs as [[Wc _] Hdk _ _]. unfold commit. apply fine_bind; [|intros; exact I].
   destruct (o_no_learn (opts s)); [exact I|]. unfold auto_learn. apply fine_auto_learn_go; [exact Hs|].
-  unfold conversion. destruct (contiguous_bounds _ _ _ (conv_tiles (inner (com s)) (nth s) Wc)) as (_ & Hf).
+  unfold conversion. destruct (contiguous_bounds _ _ _ (conv_tiles (dict s) (engine s) (inner (com s)) (nth s) Hdk Wc)) as (_ & Hf).
   eapply Forall_impl; [|exact Hf]. cbv beta. unfold clen. intros a (A & B & C). lia.
 Qed.
 
@@ -462,8 +462,8 @@ Qed.
 
 Lemma fine_try_auto_commit (s : shared') : SInv s -> fine (try_auto_commit conv s).
 Proof.
-  intros [[Wc Wcur] _ _ _]. unfold try_auto_commit. destruct (Nat.leb _ _); [exact I|].
-  destruct (fine_auto_commit_take (ce_len (com s)) (o_threshold (opts s)) (conversion conv s) [] 0 (conv_tiles _ _ Wc)) as (b & r & Hr & Hle).
+  intros [[Wc Wcur] Hdk _ _]. unfold try_auto_commit. destruct (Nat.leb _ _); [exact I|].
+  destruct (fine_auto_commit_take (ce_len (com s)) (o_threshold (opts s)) (conversion conv s) [] 0 (conv_tiles _ _ _ _ Hdk Wc)) as (b & r & Hr & Hle).
   rewrite Hr. cbn [obind]. apply fine_bind; [now apply fine_ce_remove_front | intros; exact I].
 Qed.
 
